@@ -107,6 +107,8 @@ def c03(ctx):
     quick = ctx.tier == 'quick'
     runs = [{'module': 'MC_C03', 'cfg': 'MC_C03_quick.cfg', 'workers': 8}] if quick else \
            [{'module': 'MC_C03', 'cfg': 'MC_C03_thorough.cfg', 'workers': 12, 'timeout': 3000, 'heap': '16g'}]
+    # the pair instance: enums whose variants are all rich (what one variant leaves behind for the next)
+    runs.append({'module': 'MC_C03', 'cfg': 'MC_C03_pair.cfg', 'workers': 8, 'timeout': 1800})
 
     def calls(r):
         out = []
@@ -1157,6 +1159,13 @@ def type_expression_inputs(ctx, quick):
 def c17(ctx):
     quick = ctx.tier == 'quick'
     recs = injection_records(ctx, quick)
+    if not quick and getattr(ctx, 'only_cfg', None) is None:
+        # the model-level counterpart of "never loops": every scan of the scanner model ends with a verdict under weak
+        # fairness (TLC's liveness algorithm needs a small instance; about six minutes)
+        live = tlcmod.run_mc('MC_C13', 'MC_C13_live.cfg', ctx.workdir, workers=4, timeout=3000, tags=('INJ',), heap='8g')
+        if not live['ok']:
+            raise ToolError('MC_C13_live.cfg: the scanner model does not satisfy Termination (violated=%s)' % live['violated'])
+        ctx.coverage['liveness'] = 'Termination (<>(phase = "done") under WF_vars(Next)) holds on MC_C13_live.cfg: %s states' % live['stats'].get('distinct')
     exe = xchan.build(ctx)
     requests = []
     meta = {}
@@ -1292,7 +1301,7 @@ def stress_inputs():
 
 # ---------------------------------------------------------------- C11
 class GenericRender(TypeRender):
-    GT = {'T': 'T', 'U': 'U', 'WrapT': 'Wrap<T>', 'PhantomT': '::core::marker::PhantomData<T>', 'PairTU': '(T, U)', 'conc': 'u8',
+    GT = {'T': 'T', 'U': 'U', 'RefT': "&'b T", 'WrapT': 'Wrap<T>', 'PhantomT': '::core::marker::PhantomData<T>', 'PairTU': '(T, U)', 'conc': 'u8',
           'PhantomAll': '::core::marker::PhantomData<(T, U)>', 'A': 'TA', 'B': 'TB'}
 
     def __init__(self, idx, cfg, prop, **kw):
@@ -1361,12 +1370,21 @@ def c11(ctx):
 
 
 # ---------------------------------------------------------------- C12
+GEN_DECL = {'TU': '<T, U>', 'rich': "<'a, const N: usize, T: Bnd = u8>",
+            'wide': "<'a, 'b: 'a, T: ?Sized + Bnd, const N: usize = 2, U: Bnd = u8>"}
+GEN_WHERE = {'TU': '', 'rich': 'T: Usr', 'wide': "&'b T: Usr, U: Usr, [u8; N]: Sized"}
+GEN_IMPL = {'TU': ('impl<T, U>', '<T, U>'), 'rich': ("impl<'a, const N: usize, T: Bnd>", "<'a, N, T>"),
+            'wide': ("impl<'a, 'b: 'a, T: ?Sized + Bnd, const N: usize, U: Bnd>", "<'a, 'b, T, N, U>")}
+GEN_PHANTOM = {'TU': 'PhantomData<(T, U)>', 'rich': "PhantomData<&'a [T; N]>", 'wide': "PhantomData<(&'a u8, &'b T, [U; N])>"}
+
+
 class BoundsRender(GenericRender):
     def generics_decl(self):
-        return '<T, U>' if self.opts['gen'] == 'TU' else "<'a, const N: usize, T: Bnd = u8>"
+        return GEN_DECL[self.opts['gen']]
 
     def where_decl(self):
-        return '' if self.opts['gen'] == 'TU' else 'where T: Usr'
+        w = GEN_WHERE[self.opts['gen']]
+        return 'where ' + w if w else ''
 
     def custom_bound_text(self, t):
         return 'T: Cst'
@@ -1374,7 +1392,7 @@ class BoundsRender(GenericRender):
     def field_type(self, v, i, f):
         ty = f['ty']
         if ty == 'PhantomAll':
-            return 'PhantomData<(T, U)>' if self.opts['gen'] == 'TU' else "PhantomData<&'a [T; N]>"
+            return GEN_PHANTOM[self.opts['gen']]
         if ty == 'PhantomT':
             return 'PhantomData<T>'
         return self.GT[ty]
@@ -1465,7 +1483,7 @@ class CompileBoundsRender(BoundsRender):
     def field_type(self, v, i, f):
         ty = f['ty']
         if ty == 'PhantomAll':
-            return '::core::marker::PhantomData<(T, U)>' if self.opts['gen'] == 'TU' else "::core::marker::PhantomData<&'a [T; N]>"
+            return '::core::marker::' + GEN_PHANTOM[self.opts['gen']]
         if ty == 'PhantomT':
             return '::core::marker::PhantomData<T>'
         return self.GT[ty]
@@ -1473,10 +1491,8 @@ class CompileBoundsRender(BoundsRender):
     def extra_items(self):
         out = []
         n = self.name
-        if self.opts['gen'] == 'TU':
-            hdr, ty, wh = 'impl<T, U>', '%s<T, U>' % n, ''
-        else:
-            hdr, ty, wh = "impl<'a, const N: usize, T: Bnd>", "%s<'a, N, T>" % n, 'T: Usr'
+        hdr, targs = GEN_IMPL[self.opts['gen']]
+        ty, wh = n + targs, GEN_WHERE[self.opts['gen']]
         if 'Copy' in self.traits and 'Clone' not in self.traits:
             out.append('%s ::core::clone::Clone for %s %s { fn clone(&self) -> Self { unimplemented!() } }' % (hdr, ty, 'where ' + wh if wh else ''))
         if 'Eq' in self.traits and 'PartialEq' not in self.traits:
@@ -1541,6 +1557,8 @@ def c01(ctx):
     # compiled when no field mentions a type parameter
     def user_bound_ok(c):
         modes = [v for k, v in c['opts']['bounds'].items() if k != '-']
+        if 'all' in modes and 'Default' in c['opts']['traits'] and any(f['ty'] == 'RefT' for var in c['variants'] for f in var['fields']):
+            return False      # `T: Default` does not give `&'b T: Default`: bound(*) is the user's own insufficient bound here
         if not any(m in ('custom', 'disabled') for m in modes):
             return True
         return all(f['ty'] in ('conc', 'PhantomT', 'PhantomAll', 'A', 'B') for var in c['variants'] for f in var['fields'])
